@@ -11,7 +11,8 @@
    their witnesses stay in Proofs/ParserWitness.v (model = observation, documented) and are
    replayed on the implementation by ./check C15 on every run. *)
 From Coq Require Import NArith ZArith List Bool Arith.
-From XV Require Import Base.Str Base.Eqb Base.PyInt Model.Bind Model.Parser Model.ParserCorr Spec.Inject
+From XV Require Import Base.Str Base.Eqb Base.PyInt Model.Bind Model.DictCodec Model.DictLeak Model.DictLeakCorr
+  Proofs.DictLeakDoc Model.Parser Model.ParserCorr Spec.Inject
   Proofs.ParserWitness Proofs.ParserDoc Proofs.ParserCost.
 Import ListNotations.
 
@@ -85,3 +86,42 @@ Theorem C15_parse_work_linear : forall cfg c u replay root evs,
   (run_cost cfg c u replay root init_state evs <= 3 * length evs)%nat.
 Proof. exact parse_work_linear. Qed.
 Print Assumptions C15_parse_work_linear.
+
+(* ---------------------------------------------------------------- dictionary / JSON decoder *)
+(* Model/DictLeak.v: DictDecoder.decode / verify_type / detect_type / bind_dataclass / find_var /
+   bind_value / bind_text / bind_complex_type / bind_best_dataclass / bind_derived_value over
+   ARBITRARY JSON values; `dkind` contains TypeError, AttributeError, KeyError, IndexError,
+   ValueError, AssertionError next to the documented errors.  For every JSON value -- any JSON
+   kind at any key --, every configuration, with or without a target class, the decoder answers
+   a value or a documented error, provided the exported metadata is closed (dict_wf: the class of
+   every field and of every xsi index entry has metadata, choices have no choices; evaluated in
+   Coq on every exported universe).  No refutation is left: the leaks this statement had on the
+   original tree (F10, F11, F14, F15, F17, F18) were repaired in /repo (76c1b13 ee69885 40fe45b
+   c47e5c1 d56ac8c) and the model follows the repaired code; the unreachable Python-error branches
+   of the model (`value[var.local_name]` on a non-dictionary, `" ".join` of None, `data[key]`)
+   are proved unreachable.  Not covered: Python's recursion limit (finding C15-F19). *)
+Definition dict_outcome_documented (r : dres value) : bool :=
+  match r with DOk _ => true | DErr k => ddocumented k end.
+
+Theorem C15_dict_outcome_documented : forall g c u cfg clazz is_list j,
+  dict_wf u g = true ->
+  match clazz with Some cl => has_meta u cl = true | None => True end ->
+  dict_outcome_documented (DictLeak.decode g c u cfg clazz is_list j) = true.
+Proof.
+  intros g c u cfg clazz is_list j Hwf Hroot.
+  pose proof (decode_documented g c u Hwf cfg clazz is_list j Hroot) as H.
+  unfold dict_outcome_documented. destruct (DictLeak.decode g c u cfg clazz is_list j); [reflexivity|exact H].
+Qed.
+Print Assumptions C15_dict_outcome_documented.
+
+(* non-vacuity: real exported metadata (model `wildtail` with the generic classes) is closed, and
+   misfit documents -- an unknown key with a list value inside a nested object, a list nested in
+   a list of integers, a scalar document without target class -- are answered with ParserError *)
+Example C15_dict_guard_nonvacuous :
+  dict_wf u_wildtail g_wildtail = true /\ dict_wf u_required g_required = true /\ dict_wf u_anytype g_anytype = true
+  /\ DictLeak.decode g_wildtail reject_all u_wildtail (mk_dconfig true false []) (Some root_wildtail) false
+       (JDict [([99]%N, JDict [([122;122]%N, JList false [JNull; JBool true])])]) = DErr KParserError
+  /\ DictLeak.decode g_wildtail reject_all u_wildtail (mk_dconfig true false []) (Some root_wildtail) false
+       (JDict [([100]%N, JList false [JList false [JNull]])]) = DErr KParserError
+  /\ DictLeak.decode g_wildtail reject_all u_wildtail (mk_dconfig true false []) None false (JInt 3) = DErr KParserError.
+Proof. repeat split; vm_compute; reflexivity. Qed.
